@@ -140,9 +140,15 @@ def main():
             if v["clause"] == "differs-across-interpreters":
                 replay_path = core.write_replay(prop, seed, r["k"], r["engine"], prop, trace, trace, v)
             else:
-                minimised, tried = core.shrink(engine, trace, prop, target, max_s=float(os.environ.get("VERIF_SHRINK_S", "60")))
-                res_min = core.run_trace(engine, minimised, prop)
-                vmin = next((x for x in res_min["violations"] if (x["property"], x["clause"]) == target), v)
+                # minimisation executes the code under test many times: in a forked child, so that nothing it leaves
+                # behind (module-level state of the library) reaches later steps of this process
+                status, out = core.run_isolated(_shrink_job, (r["engine"], trace, prop, target,
+                                                              float(os.environ.get("VERIF_SHRINK_S", "60"))), timeout=900)
+                if status == "ok":
+                    minimised, tried, vmin = out
+                    vmin = vmin or v
+                else:
+                    minimised, tried, vmin = trace, 0, v
                 replay_path = core.write_replay(prop, seed, r["k"], r["engine"], prop, minimised, trace, vmin)
                 print(f"minimised after {tried} candidate executions; clause={vmin['clause']}\n  {vmin['msg']}")
             code, out = core.replay_in_fresh_process(replay_path)
@@ -152,6 +158,10 @@ def main():
                 break
             attempts.append((replay_path, code, out[-500:]))
             print(f"  (replay of {replay_path} in a fresh process did not reproduce: exit {code}; trying the next violating run)")
+        if rc == 0:
+            # None of them fails on its own.  Blocks are executed in freshly forked processes, so what a run can still
+            # depend on is the runs executed before it in its block: replay the block up to and including the run.
+            rc, replay_path = history_replay(prop, spec, tier, seed, viol_runs, parts, core, get_engine)
         if rc == 0:
             path, code, out = attempts[0]
             print(f"HARNESS-ERROR replay of {path} in a fresh process did not reproduce (exit {code}):\n{out}")
@@ -178,6 +188,57 @@ def main():
           f"violating_runs={len(viol_runs)} known={len(known_hits)} harness_errors={len(harness_errors)} "
           f"wall={wall:.1f}s")
     return rc
+
+
+def _shrink_job(engine_name, trace, prop, target, max_s):
+    from sim import core
+    from engines import get_engine
+    engine = get_engine(engine_name)
+    minimised, tried = core.shrink(engine, trace, prop, target, max_s=max_s)
+    res_min = core.run_trace(engine, minimised, prop)
+    vmin = next((x for x in res_min["violations"] if (x["property"], x["clause"]) == target), None)
+    return minimised, tried, vmin
+
+
+def _gen_job(engine_name, seed, tier, prop, ks):
+    from sim import core
+    from engines import get_engine
+    engine = get_engine(engine_name)
+    return [core.generate_trace(engine, seed, tier, prop, j) for j in ks]
+
+
+def history_replay(prop, spec, tier, seed, viol_runs, parts, core, get_engine):
+    n_double = 16
+    for r, new in viol_runs[:2]:
+        v = new[0]
+        target = (v["property"], v["clause"])
+        part = next(q for q in parts if q["engine"] == r["engine"])
+        block = part.get("block", 8)
+        k = r["k"]
+        engine = get_engine(r["engine"])
+        first = (k // block) * block
+        prefix = []
+        status, gen = core.run_isolated(_gen_job, (r["engine"], seed, tier, prop, list(range(first, k))), timeout=600)
+        if status != "ok":
+            continue
+        for j, t in zip(range(first, k), gen):
+            prefix += [t, t] if j < n_double else [t]
+        repeat = 2 if k < n_double else 1
+        trace = r["trace"]
+        if not core.sequence_fails(r["engine"], prefix, trace, prop, target, repeat):
+            print(f"  (run {k} does not fail after the {len(prefix)} executions that preceded it in its block either)")
+            continue
+        small, tried = core.shrink_prefix(r["engine"], prefix, trace, prop, target, repeat,
+                                          max_s=float(os.environ.get("VERIF_SHRINK_S", "60")) * 1.5)
+        print(f"violation in run {k} needs state left behind by earlier runs of its block: clause={v['clause']}; "
+              f"{len(small)} of {len(prefix)} preceding executions kept after {tried} candidate sequences")
+        path = core.write_replay(prop, seed, k, r["engine"], prop, trace, trace, v, prefix=small, repeat=repeat)
+        code, out = core.replay_in_fresh_process(path)
+        if code == 1 and "VIOLATION property=%s" % prop in out:
+            print(f"VIOLATION property={prop} replay={path}")
+            return 1, path
+        print(f"  (history replay {path} did not reproduce in a fresh process: exit {code})")
+    return 0, None
 
 
 def write_evidence(prop, spec, tier, seed, results, truncated, wall, wall_explore, n_viol, workers, parts):
@@ -277,7 +338,14 @@ def do_replay(path, core, get_engine):
         rep = json.load(f)
     engine = get_engine(rep["engine"])
     prop = rep["property"]
-    res = core.run_trace(engine, rep["trace"], rep.get("focus", prop))
+    if rep.get("prefix") is not None:
+        for t in rep["prefix"]:
+            core.run_trace(engine, t, rep.get("focus", prop))
+        print(f"replay {path}: {len(rep['prefix'])} preceding executions done")
+        results = [core.run_trace(engine, rep["trace"], rep.get("focus", prop)) for _ in range(int(rep.get("repeat", 1)))]
+        res = next((x for x in results if any(v["property"] == prop for v in x["violations"])), results[-1])
+    else:
+        res = core.run_trace(engine, rep["trace"], rep.get("focus", prop))
     if rep.get("violation", {}).get("clause") == "differs-across-interpreters":
         import subprocess
         env = dict(os.environ, VERIF_HASHSEED="7321")
@@ -307,4 +375,12 @@ def do_replay(path, core, get_engine):
 
 
 if __name__ == "__main__":
-    sys.exit(main())
+    try:
+        _rc = main()
+    except SystemExit:
+        raise
+    except BaseException as _e:      # an uncaught exception of the harness must never look like a verdict (exit 1)
+        import traceback
+        print("HARNESS-ERROR uncaught exception in check.py:\n" + traceback.format_exc()[-2000:])
+        _rc = 2
+    sys.exit(_rc)
